@@ -171,6 +171,8 @@ def recorded_on_every_exit(ctx, f, fld, src):
 
 
 def run(ctx):
+    # a detector with a duration keeps its window in the plugin: it judges 'for N seconds' only if it is run on every tick
+    detector_walk_every_tick(ctx, "C08")
     from .C16 import resolve_rule
     resolve_rule(ctx)          # `exists` answers by what resolveWildcard returns: existing cgroup DIRECTORIES only
     percent_threshold_exact(ctx, "C08")
